@@ -48,6 +48,9 @@ structure St where
   pc : Nat → Pc
   viol : Nat                    -- ghost: number of accesses to released blocks, double releases,
                                 --        in-place writes while another handle exists
+  capTab : Nat → Nat → Nat := fun _ len => len ||| 3
+                                -- parameter, never changed by a step: capacity policy of the String allocation
+                                -- sites (site, requested minimum ↦ capacity), measured on the real class by the harness
 
 def upd {α : Type} (f : Nat → α) (i : Nat) (x : α) : Nat → α := fun j => if j = i then x else f j
 
@@ -311,7 +314,12 @@ def mapPut : List Nat → Nat → Nat → List Nat
 /-- `if(data->ref && Atomic::decrement(data->ref) == 0) delete …; data = &static` -/
 def rel (d : Nat) : List Act := [.dec d, .free]
 
-def strCap (len : Nat) : Nat := len ||| 3
+/-- allocation sites of String data: constructor from (ptr, len), copy of unowned data, assignment of
+    unowned data, detach(minCapacity) -/
+def siteCtor : Nat := 0
+def siteCopy : Nat := 1
+def siteAssign : Nat := 2
+def siteDetach : Nat := 3
 
 /-- tag and content seen through a slot (`none` for a dangling pointer) -/
 def view (s : St) (v : Nat) : Option (Nat × List Nat) :=
@@ -400,18 +408,18 @@ def embOf (st : St) (d : Nat) : Option Nat := match st.slots d with | .blk b => 
 
 /-- the steps of an API call up to and including its plain read of the counter (if it has one) -/
 def pre (st : St) (tid : Nat) : ApiOp → List Act
-  | .sNew d bytes => rel d ++ [.alloc d tagStr bytes (strCap bytes.length)]
+  | .sNew d bytes => rel d ++ [.alloc d tagStr bytes (st.capTab siteCtor bytes.length)]
   | .sLit d bytes => rel d ++ [.setInl d tagStr bytes]
   | .sCopy d s =>
     if d = s then [] else
     rel d ++ (match st.slots s with
       | .blk _ => [.inc d s]
       | .none => []
-      | .inl _ val => [.alloc d tagStr val (strCap val.length)])
+      | .inl _ val => [.alloc d tagStr val (st.capTab siteCopy val.length)])
   | .sAssign d s =>
     match st.slots s with
     | .blk _ => shareAssign tid d s
-    | _ => rel d ++ [.alloc d tagStr (viewVal st s) (strCap (viewVal st s).length)]
+    | _ => rel d ++ [.alloc d tagStr (viewVal st s) (st.capTab siteAssign (viewVal st s).length)]
   | .sClear d => [.readRef d true]
   | .sAppend d bytes => [.readRef d ((viewVal st d).length + bytes.length ≤ blkCap st d)]
   | .sReserve d n => [.readRef d (max n (viewVal st d).length ≤ blkCap st d)]
@@ -420,13 +428,13 @@ def pre (st : St) (tid : Nat) : ApiOp → List Act
     (match st.slots d with
       | .blk _ => [.inc (tmpU tid) d]
       | .none => []
-      | .inl _ val => [.alloc (tmpU tid) tagStr val (strCap val.length)]) ++
+      | .inl _ val => [.alloc (tmpU tid) tagStr val (st.capTab siteCopy val.length)]) ++
     [.readRef d ((viewVal st d).length + bytes.length ≤ blkCap st d)]
   | .sResize d n => [.readRef d (n ≤ blkCap st d)]
   | .sEdit d _ _ _ => [.readRef d true]
   | .sPrintf d _ => [.readRef d (200 ≤ blkCap st d)]
   | .sSet d bytes =>
-    [.alloc (tmpU tid) tagStr bytes (strCap bytes.length)] ++ shareAssign tid d (tmpU tid) ++ rel (tmpU tid)
+    [.alloc (tmpU tid) tagStr bytes (st.capTab siteCtor bytes.length)] ++ shareAssign tid d (tmpU tid) ++ rel (tmpU tid)
   | .vCopy d s =>
     if d = s then [] else
     rel d ++ (match st.slots s with
@@ -494,22 +502,22 @@ def post (st : St) (tid : Nat) : ApiOp → List Act
   | .sClear d => if isWriting st tid then [.write []] else rel d
   | .sAppend d bytes =>
     let nv := viewVal st d ++ bytes
-    if isWriting st tid then [.write nv] else cloneAllocFirst tid d tagStr nv (strCap nv.length)
+    if isWriting st tid then [.write nv] else cloneAllocFirst tid d tagStr nv (st.capTab siteDetach (nv.length))
   | .sReserve d n =>
     let v := viewVal st d
-    if isWriting st tid then [.write v] else cloneAllocFirst tid d tagStr v (strCap (max n v.length))
+    if isWriting st tid then [.write v] else cloneAllocFirst tid d tagStr v (st.capTab siteDetach ((max n v.length)))
   | .sPrepend d bytes =>
     let nv := bytes ++ viewVal st d
-    (if isWriting st tid then [.write nv] else cloneAllocFirst tid d tagStr nv (strCap nv.length)) ++ rel (tmpU tid)
+    (if isWriting st tid then [.write nv] else cloneAllocFirst tid d tagStr nv (st.capTab siteDetach (nv.length))) ++ rel (tmpU tid)
   | .sResize d n =>
     let nv := (viewVal st d).take n
-    if isWriting st tid then [.write nv] else cloneAllocFirst tid d tagStr nv (strCap n)
+    if isWriting st tid then [.write nv] else cloneAllocFirst tid d tagStr nv (st.capTab siteDetach (n))
   | .sEdit d kind a b =>
     let v := viewVal st d
     let nv := if kind = 0 then v.map (fun c => if c = a then b else c) else if kind = 1 then v.map lowerByte else v
-    if isWriting st tid then [.write nv] else cloneAllocFirst tid d tagStr nv (strCap nv.length)
+    if isWriting st tid then [.write nv] else cloneAllocFirst tid d tagStr nv (st.capTab siteDetach (nv.length))
   | .sPrintf d x =>
-    if isWriting st tid then [.write (decDigits x)] else cloneAllocFirst tid d tagStr (decDigits x) (strCap 200)
+    if isWriting st tid then [.write (decDigits x)] else cloneAllocFirst tid d tagStr (decDigits x) (st.capTab siteDetach (200))
   | .vSetStr d bytes => if isWriting st tid then [.write bytes] else cloneReleaseFirst d tagVStr bytes
   | .vPushA d x =>
     if isWriting st tid then [.write (viewVal st d ++ [x])]
